@@ -283,6 +283,19 @@ def named_cases():
                                     A.If([(A.Bool(True), [P(V("x")), A.For(V("_"), A.lst(I(0)), [P(V("x")), A.Block([P(V("x")), A.Assign(V("x"), A.Bin("+", V("x"), I(1)))])])])], None),
                                     A.Return(V("x"))]), P(A.call("top", I(50))), P(V("x")),
                                 A.Block([A.Declare(V("x"), I(2)), A.Block([P(V("x")), A.FuncStmt("rd", [], False, [A.Return(V("x"))]), A.Block([P(A.call("rd"))])])])],
+        # a body that is nothing but one bare block still has its own scope, and the block one more
+        "single_block_body": [A.FuncStmt("f", [V("x")], False, [A.Block([A.Declare(V("x"), A.Bin("+", V("x"), I(1))), P(V("x"))])]), P(A.call("f", I(1))),
+                              A.FuncStmt("g", [V("x")], False, [A.Block([A.Declare(V("x"), I(0)), P(V("x"))]), A.Return(V("x"))]), P(A.call("g", I(5))),
+                              A.For(V("x"), A.lst(I(7), I(8)), [A.Block([A.Declare(V("x"), S("inner")), P(V("x"))])]),
+                              A.For(A.lst(V("i"), V("v")), A.lst(I(7)), [A.Block([A.Declare(V("v"), S("inner")), A.Declare(V("i"), S("idx")), P(A.lst(V("i"), V("v")))]), P(A.lst(V("i"), V("v")))]),
+                              A.Declare(V("w"), I(0)), A.While(A.Bin("<", V("w"), I(1)), [A.Block([A.Declare(V("w"), I(50)), P(V("w"))]), A.OpAssign("+", V("w"), I(1))]), P(V("w")),
+                              A.If([(A.Bool(True), [A.Block([A.Declare(V("w"), I(60)), P(V("w"))])])], None), P(V("w"))],
+        # a function literal called on the spot has a call scope of its own
+        "immediately_called_literal": [A.Declare(V("x"), I(1)), A.ExprStmt(A.Call(A.FuncE([], False, [A.Declare(V("x"), I(2)), A.Declare(V("fresh"), I(3)), P(V("x")), P(V("fresh"))]), [])),
+                                       A.ExprStmt(A.Call(A.FuncE([], False, [A.Declare(V("x"), I(4)), A.Declare(V("fresh"), I(5)), P(V("x")), P(V("fresh"))]), [])), P(V("x")),
+                                       A.Declare(V("r"), A.Call(A.Paren(A.FuncE([], False, [A.Declare(V("x"), I(6)), A.Return(A.FuncE([], False, [A.OpAssign("+", V("x"), I(1)), A.Return(V("x"))]))])), [])),
+                                       P(A.call("r")), P(A.call("r")), P(V("x")), A.Declare(V("fresh"), S("outer fresh")), P(V("fresh")),
+                                       A.FuncStmt("host", [], False, [A.Declare(V("loc"), I(1)), A.ExprStmt(A.Call(A.FuncE([], False, [A.Declare(V("loc"), I(2)), P(V("loc"))]), [])), A.Return(V("loc"))]), P(A.call("host"))],
         "empty_function_scope": [A.Declare(V("x"), I(1)), A.FuncStmt("outer", [], False, [A.FuncStmt("inner", [], False, [A.Declare(V("x"), I(2)), A.Return(V("x"))]), A.Return(A.call("inner"))]),
                                  P(A.call("outer")), P(V("x")), A.Block([A.Block([A.Declare(V("x"), I(3)), P(V("x"))]), P(V("x"))])],
     }
